@@ -412,6 +412,98 @@ def argument_purity_clause(model, rep, cg):
            f"{len(reach)} task-reachable function(s) from {len(entries)} task entry function(s) examined", clause="7 argument purity", stmt="S26 summary")
 
 
+# --------------------------------------------------------------------------- clause 8: task keys and shared model state
+def task_key_clause(model, rep, cg):
+    """dask merges tasks with equal keys: keys are left to dask's tokeniser; an explicit key name must be unique across loaders, pools and calls."""
+    n = 0
+    for fn in model.all_functions:
+        for c in calls_in(fn):
+            for k in c.keywords:
+                if k.arg in ("dask_key_name", "name") and k.arg == "dask_key_name":
+                    n += 1
+                    txt = norm_src(k.value)
+                    uniq = any(t in txt for t in ("uuid", "tokenize", "id(", "token"))
+                    rep.instance("S29", fn.loc(c))
+                    rep.ob("S29", fn.anchor, "explicit dask key names are globally unique", uniq,
+                           f"`dask_key_name={txt}` repeats for every loader / pool / call: tasks from different tomograms or function pools computed in one graph "
+                           "share a key and dask keeps only one of them", node=c, fn=fn, clause="8 task keys")
+    rep.ob("S29", "dask task keys", "task keys are left to dask's tokeniser (no fixed dask_key_name anywhere)", True, f"{n} explicit key name(s) found", clause="8 task keys",
+           stmt="S29 summary")
+
+
+def shared_model_clause(model, rep, cg):
+    """Alignment models, tilt models and backends are shared by all tasks of a run: task-reachable methods of those classes never write a field of
+    self (the template/mask cache is the one designated exception and is covered by the shared-container rule)."""
+    ea = EffectAnalysis(model)
+    entries = set()
+    for site, call, fns, how in cg.task_entries():
+        entries.update(fns)
+    reach = set()
+    for f in entries:
+        reach |= set(cg.reachable([f]))
+    allowed = {"TemplateMaskCache"}
+    bad = []
+    nmeth = 0
+    for f in sorted(reach, key=lambda x: x.anchor):
+        if f.cls is None or f.name == "__init__" or not f.module.relpath.startswith(("acryo/alignment/", "acryo/tilt/", "acryo/backend/")):
+            continue
+        nmeth += 1
+        if f.cls.name in allowed:
+            continue
+        for e in ea.summary(f).effects:
+            if e.kind in ("store", "mutate") and e.root == "self":
+                bad.append((f, e))
+    for f, e in bad:
+        rep.instance("S30", f.loc(e.node))
+        rep.ob("S30", f.anchor, "a method that runs inside tasks does not write fields of the shared model / tilt / backend object", False,
+               f"{e.describe()}: the object is shared by all concurrently running tasks; an unsynchronised memo or counter makes results depend on the interleaving",
+               node=e.node, fn=f, clause="2 shared state")
+    rep.ob("S30", "task-reachable methods of shared objects", "no task-reachable method of an alignment model, tilt model or backend writes to self", not bad,
+           f"{nmeth} task-reachable method(s) of acryo/alignment, acryo/tilt, acryo/backend examined", clause="2 shared state", stmt="S30 summary")
+    if nmeth < 30:
+        rep.error(f"only {nmeth} task-reachable methods of shared objects found (floor 30)")
+
+
+def lazy_random_clause(model, rep, cg):
+    """Random numbers are drawn while the task graph is *built* (in program order), never inside a function that dask schedules: a shared Generator
+    consumed by tasks yields values in scheduler order."""
+    draws = {"normal", "random", "uniform", "standard_normal", "choice", "integers", "permutation", "shuffle", "poisson", "exponential", "rand", "randn", "randint"}
+    wrappers = {"delayed", "map_blocks", "map_overlap", "map", "from_func", "apply_along_axis", "blockwise"}
+    n = 0
+    bad = []
+    for fn in model.all_functions:
+        local_defs = {x.name: x for x in ast.walk(fn.node) if isinstance(x, (ast.FunctionDef, ast.AsyncFunctionDef)) and x is not fn.node}
+        for c in calls_in(fn):
+            name = c.func.attr if isinstance(c.func, ast.Attribute) else (c.func.id if isinstance(c.func, ast.Name) else "")
+            if name not in wrappers or not c.args:
+                continue
+            a0 = c.args[0]
+            body = None
+            if isinstance(a0, ast.Lambda):
+                body, bound = a0.body, {x.arg for x in a0.args.args}
+            elif isinstance(a0, ast.Name) and a0.id in local_defs:
+                d = local_defs[a0.id]
+                body, bound = d, {x.arg for x in d.args.args} | {t.id for x in ast.walk(d) if isinstance(x, ast.Assign) for t in x.targets if isinstance(t, ast.Name)}
+            if body is None:
+                continue
+            n += 1
+            for x in ast.walk(body):
+                if isinstance(x, ast.Call) and isinstance(x.func, ast.Attribute) and x.func.attr in draws:
+                    recv = x.func.value
+                    root = recv
+                    while isinstance(root, ast.Attribute):
+                        root = root.value
+                    if isinstance(root, ast.Name) and root.id not in bound:
+                        bad.append((fn, c, x))
+    for fn, c, x in bad:
+        rep.instance("S12.lazy", fn.loc(c))
+        rep.ob("S12", fn.anchor, "no random draw happens inside a function handed to dask", False,
+               f"`{norm_src(x)[:70]}` runs inside the task created by `{norm_src(c.func)}`: the captured generator is consumed in whatever order the scheduler runs the "
+               "blocks, so seeded results differ between schedulers, worker counts and runs", node=x, fn=fn, clause="3 global state")
+    rep.ob("S12", "task closures", "closures and local functions handed to dask draw no random numbers from a captured generator", not bad,
+           f"{n} closure(s) handed to dask examined", clause="3 global state", stmt="S12 lazy summary")
+
+
 def check(model, rep, tier):
     rep.decided += ["C10.1 cache-key classes have consistent __hash__/__eq__", "C10.2 no shared container is both inserted into and iterated (un-snapshotted) by task-reachable code",
                     "C10.3 the global default backend is not task-writable", "C10.4 memoised results are never mutated", "C10.5 declared lazy shapes agree with produced shapes",
@@ -429,3 +521,6 @@ def check(model, rep, tier):
     lazy_shape_clause(model, rep, cg)
     input_kind_clause(model, rep, funcs)
     argument_purity_clause(model, rep, cg)
+    task_key_clause(model, rep, cg)
+    lazy_random_clause(model, rep, cg)
+    shared_model_clause(model, rep, cg)
